@@ -33,10 +33,12 @@ def make_path(rng):
     retracted = False
     for _ in range(rng.randint(12, 30)):
         roll = rng.random()
-        if roll < 0.04 and steps and not retracted:
+        inside = gen.excluded(pos["X"], pos["Y"])
+        if steps and not retracted and (roll < 0.04 or (inside and rng.random() < 0.1)):
             # the path re-homes in the middle (from here on it continues from the origin), all
-            # axes or X / Y alone
-            axes = rng.choice(["XYZ", "XYZ", "X", "Y"])
+            # axes or X / Y alone (more often while the tool is inside a region: one axis homed
+            # during an episode)
+            axes = rng.choice(["X", "Y", "X", "Y", "XYZ"] if inside else ["XYZ", "XYZ", "X", "Y"])
             steps.append(("home", axes))
             for axis in axes:
                 pos[axis] = 0
